@@ -952,6 +952,25 @@ func (e *CEnv) callExpr(x *CExpr) (Val, error) {
 		}
 		c.smt.declareFun("iface_payload", []string{"Int"}, "Int")
 		return Val{T: types.NewPointer(st), Term: app("iface_payload", c.termOf(iv))}, nil
+	case "isType":
+		// isType(x, T): the interface value x holds a *T (T a struct type), or a T for other types
+		if len(x.Args) != 2 {
+			return Val{}, fmt.Errorf("isType(iface, Type)")
+		}
+		iv, err := e.eval(x.Args[0])
+		if err != nil {
+			return Val{}, err
+		}
+		tt, err := e.resolveType(&CType{Kind: "name", Name: strings.ReplaceAll(x.Args[1].String(), " ", "")})
+		if err != nil {
+			return Val{}, err
+		}
+		if _, isStruct := tt.Underlying().(*types.Struct); isStruct {
+			tt = types.NewPointer(tt)
+		}
+		c.smt.declareFun("iface_type", []string{"Int"}, "Int")
+		it := c.termOf(iv)
+		return Val{T: tBool, Term: and(not(eq(it, "0")), eq(app("iface_type", it), fmt.Sprint(goTypeTag(tt))))}, nil
 	case "at":
 		// at(s, k): the element at absolute position k of the backing array of slice s
 		// (s[i] == at(s, off(s)+i)); quantifying over absolute positions keeps arithmetic out of patterns
@@ -1062,6 +1081,21 @@ func (e *CEnv) callExpr(x *CExpr) (Val, error) {
 		n := e.sub()
 		n.useLocals = true
 		return n.eval(x.Args[0])
+	case "reNsub", "reGroup", "reName":
+		as, err := evalArgs()
+		if err != nil {
+			return Val{}, err
+		}
+		c.smt.declareFun("re_nsub", []string{"Int"}, "Int")
+		c.smt.declareFun("re_group", []string{"Int", "Str", "Int"}, "Str")
+		c.smt.declareFun("re_name", []string{"Int", "Int"}, "Str")
+		switch x.Name {
+		case "reNsub":
+			return Val{T: tInt, Term: app("re_nsub", as[0].Term)}, nil
+		case "reGroup":
+			return Val{T: tStr, Term: app("re_group", as[0].Term, as[1].Term, as[2].Term)}, nil
+		}
+		return Val{T: tStr, Term: app("re_name", as[0].Term, as[1].Term)}, nil
 	case "regexMatch":
 		as, err := evalArgs()
 		if err != nil {
